@@ -6,10 +6,12 @@ import (
 
 	"github.com/sboehler/knut/lib/amounts"
 	"github.com/sboehler/knut/lib/common/date"
+	"github.com/sboehler/knut/lib/common/dict"
 	"github.com/sboehler/knut/lib/common/predicate"
 	"github.com/sboehler/knut/lib/common/set"
 	"github.com/sboehler/knut/lib/journal"
 	"github.com/sboehler/knut/lib/model"
+	"github.com/sboehler/knut/lib/model/commodity"
 	"github.com/sboehler/knut/lib/model/registry"
 )
 
@@ -200,22 +202,25 @@ func Performance(dpv *journal.Performance) float64 {
 		v0, v1          float64
 		inflow, outflow = dpv.PortfolioInflow, dpv.PortfolioOutflow
 	)
-	for _, v := range dpv.V0 {
-		v0 += v
-	}
-	for _, v := range dpv.V1 {
-		v1 += v
-	}
-	for _, v := range dpv.Inflow {
-		inflow += v
-	}
-	for _, v := range dpv.Outflow {
-		outflow += v
-	}
+	// Floating point addition is not associative: sum in a fixed order, not
+	// in map iteration order.
+	v0 += sum(dpv.V0)
+	v1 += sum(dpv.V1)
+	inflow += sum(dpv.Inflow)
+	outflow += sum(dpv.Outflow)
 	if v0 == v1 && inflow == 0 && outflow == 0 {
 		return 1
 	}
 	return (v1 - outflow) / (v0 + inflow)
+}
+
+// sum adds the values in the order of the commodity names.
+func sum(m pcv) float64 {
+	var res float64
+	for _, c := range dict.SortedKeys(m, commodity.Compare) {
+		res += m[c]
+	}
+	return res
 }
 
 func Perf(j *journal.Builder, part date.Partition) *journal.Processor {
